@@ -735,6 +735,8 @@ def gen_wheel(tier, r):
     ops = []
     small = [p for p in _primes_upto(3000) if p >= 7]
     def add(label, M, p, low, stop):
+        if M == 210 and p == 7:
+            return      # 7 divides 210: not a sieving prime of Wheel210_t (its multiples are pre-sieved; ASSERT(multiple % 7 != 0))
         ops.append((label, f"wheel {M} {p} {low} {stop}"))
     # every prime class x every quotient class: segment starts placed so that the first quotient
     # q0 = (low+6)/p + 1 runs through all residues mod M
@@ -791,7 +793,14 @@ def gen_cross(tier, r):
             for alg in ["small", "medium", "big"]:
                 S = r.choice([1024, 4096, 16384]) if alg == "big" else r.choice([1000, 1024, 3000, 4096, 16384, 17000])
                 for start in ([p * p, r.randrange(0, 10**9)] if q else [0, p * p, p * p - 31, r.randrange(0, 10**6), r.randrange(0, 10**12), r.randrange(10**15, 10**18)]):
-                    low = start // 30 * 30
+                    # Erat::addSievingPrime hands a prime to a cross-off class only once p <= isqrt(segmentHigh_), i.e.
+                    # p*p <= low + 30*S + 6: an earlier segment is outside the classes' domain (EratBig sizes its bucket
+                    # lists for a first multiple at most one prime-stride beyond the segment and ASSERTs otherwise)
+                    if start + 30 * S < p * p:
+                        start = p * p - r.randrange(0, 30 * S)
+                    low = max(0, start) // 30 * 30
+                    if alg == "big" and p == 7:
+                        continue    # 7 is not a sieving prime of the 210-wheel
                     nseg = r.choice([1, 2, 5]) if p < 200 else r.choice([3, 8, 20])
                     l1 = r.choice([512, 1024, 4096, 32768])
                     ops.append((f"{alg}-{pr}", f"cross {alg} {p} {low} {UMAX} {S} {nseg} {l1}"))
